@@ -32,7 +32,7 @@ def main():
                 "-DCMAKE_CXX_FLAGS_RELEASE=-O1 -DNDEBUG", "-DCMAKE_CXX_FLAGS=-Wno-error -w",
                 "-DCMAKE_CXX_COMPILER_LAUNCHER=ccache", "-DCMAKE_C_COMPILER_LAUNCHER=ccache",
                 "-DBUILD_TESTING=ON", "-DBUILD_EXECUTABLES=OFF", "-DBUILD_DOCUMENTATION=OFF", "-DBUILD_SWIG_PYTHON=OFF",
-                "-DDISABLE_STIR_LOCAL=ON", "-DSTIR_OPENMP=OFF", "-DSTIR_MPI=OFF"], env=env)
+                "-DDISABLE_STIR_LOCAL=ON", "-DSTIR_OPENMP=" + ("ON" if os.environ.get("MUT_OPENMP") == "1" else "OFF"), "-DSTIR_MPI=OFF"], env=env)
         if r.returncode != 0:
             print(r.stdout[-3000:])
             return 1
